@@ -209,10 +209,19 @@ def oracle_part(ctx):
                 sel.append((bname, f, mname, A))
     an, af, _ = hier.air_builder()
     sel.append((an, af, 'upwind-5x5', hier.nonsym_matrix(5)))
-    # every smoother family is used at least once before and once after the coarse-grid correction
-    while len(sel) < len(SMOOTHERS):
-        sel = sel + sel
-    for idx, (bname, f, mname, A) in enumerate(sel):
+    # every smoother family is used at least once before and once after the coarse-grid correction on a
+    # hierarchy with >= 2 levels: build first, then deal the smoothers out over the multi-level hierarchies
+    multi, single = [], []
+    for bname, f, mname, A in sel:
+        np.random.seed(ctx.seed)
+        try:
+            nl_ = len(f(A).levels)
+        except Exception:   # noqa
+            continue
+        (multi if nl_ > 1 else single).append((bname, f, mname, A))
+    plan = [multi[k % len(multi)] for k in range(max(len(multi), len(SMOOTHERS)))] if multi else []
+    plan += single[:2]
+    for idx, (bname, f, mname, A) in enumerate(plan):
         np.random.seed(ctx.seed)
         try:
             ml = f(A)
@@ -248,6 +257,11 @@ def oracle_part(ctx):
             L.presmoother(L.A, xs, br)
             if np.linalg.norm(xs - (xr + d['Bpre'] @ (br - Ad @ xr))) > 1e-9 * (1 + np.linalg.norm(xs)):
                 ctx.fail('smoother-not-affine/%s' % pre[0], 'presmoother is not x + B(b-Ax) with fixed B', case)
+                ok = False
+            xs = xr.copy()
+            L.postsmoother(L.A, xs, br)
+            if np.linalg.norm(xs - (xr + d['Bpost'] @ (br - Ad @ xr))) > 1e-9 * (1 + np.linalg.norm(xs)):
+                ctx.fail('smoother-not-affine/%s' % post[0], 'postsmoother is not x + B(b-Ax) with fixed B', case)
                 ok = False
             levels.append(d)
         if not ok:
